@@ -811,9 +811,28 @@ def barrier_src(ctx: Ctx) -> None:
                     dv = t.args[1] if len(t.args) > 1 else ast.Constant(None)
                     if isinstance(dv, ast.Constant) and not dv.value:
                         ok = True
-        elif isinstance(v, ast.Call) and isinstance(v.func, ast.Attribute) and v.func.attr == "get" and v.args and isinstance(v.args[0], ast.Constant) and v.args[0].value == "computed":
-            dv = v.args[1] if len(v.args) > 1 else ast.Constant(None)
-            ok = isinstance(dv, ast.Constant) and not dv.value
+        else:
+            def allowed_truthy(e: ast.AST, at: int, depth: int = 3) -> bool:
+                """`e` can be truthy only because the node has no pipeline, or because its
+                `computed` flag (falsy by default) is set"""
+                if isinstance(e, ast.BoolOp) and isinstance(e.op, ast.Or):
+                    return all(allowed_truthy(x, at, depth) for x in e.values)
+                if isinstance(e, ast.Call) and isinstance(e.func, ast.Attribute) and e.func.attr == "get" and e.args and isinstance(e.args[0], ast.Constant) and e.args[0].value == "computed":
+                    dv = e.args[1] if len(e.args) > 1 else ast.Constant(None)
+                    return isinstance(dv, ast.Constant) and not dv.value
+                if isinstance(e, ast.Compare) and len(e.ops) == 1 and isinstance(e.ops[0], ast.Is) and isinstance(e.comparators[0], ast.Constant) and e.comparators[0].value is None:
+                    if isinstance(e.left, ast.Name):
+                        ds = fl.rdefs(e.left.id, at)
+                        return bool(ds) and all(s_.value is not None and "pipeline" in subscript_keys(s_.value) for s_ in ds)
+                    return "pipeline" in subscript_keys(e.left)
+                if isinstance(e, ast.Compare) and len(e.ops) == 1 and isinstance(e.ops[0], ast.NotIn) and isinstance(e.left, ast.Constant) and e.left.value == "pipeline":
+                    return True
+                if isinstance(e, ast.Name) and depth > 0:
+                    ds = fl.rdefs(e.id, at)
+                    return bool(ds) and all(s_.kind == "assign" and s_.value is not None and allowed_truthy(s_.value, s_.node, depth - 1) for s_ in ds)
+                return False
+
+            ok = allowed_truthy(v, r.id)
         ctx.ob(sk, r.stmt, ok, f"skip_node returns true only for 'no pipeline' or the `computed` flag with a falsy default (returns `{why}`)", sel="skip:return", props=["C07", "C09", "C10"])
 
 
